@@ -12,8 +12,8 @@ Section Euclid.
 
   Lemma ginv_init : ginv (gcdext_init a b).
   Proof.
-    unfold ginv, lin, gcdext_init; cbn. repeat split; try lia.
-    destruct ((a =? 0) && (b =? 0)) eqn:E; lia.
+    unfold ginv, lin, gcdext_init; cbn [g_ts g_tt g_tr g_ns g_nt g_nr].
+    destruct ((a =? 0) && (b =? 0)) eqn:E; repeat split; lia.
   Qed.
 
   Lemma gcdext_step_inl : forall s s', gcdext_step s = inl s' ->
@@ -39,7 +39,7 @@ Section Euclid.
     unfold ginv, lin; cbn [g_ts g_tt g_tr g_ns g_nt g_nr].
     assert (Hq := Z.quot_rem' (g_tr s) (g_nr s)).
     repeat split; try nia.
-    rewrite <- G. rewrite (Z.gcd_comm (g_nr s)). apply Z.gcd_rem; auto.
+    rewrite Z.gcd_comm, Z.gcd_rem by auto. rewrite Z.gcd_comm. exact G.
   Qed.
 
   Lemma gcdext_loop_terminates :
